@@ -717,6 +717,27 @@ class Interp:
             return pdshim._uninterp(alias.get(name, name.lower()))(*vals)
         raise Unmodelled(f"SQL function {name}")
 
+    def check_names(self, e, rel, extra=()):
+        """the engine resolves every column reference when it prepares the statement, also when no row is ever evaluated"""
+        if isinstance(e, list):
+            for x in e:
+                self.check_names(x, rel, extra)
+            return
+        if not isinstance(e, tuple):
+            return
+        if e and e[0] == "col":
+            if e[1] is None and e[2] in extra:
+                return
+            idx = [i for i, (c, q) in enumerate(zip(rel.cols, rel.quals)) if c == e[2] and (e[1] is None or q == e[1])]
+            if len(idx) == 0:
+                raise SQLExecError(f"no such column: {e[1] + '.' if e[1] else ''}{e[2]}")
+            if len(idx) > 1:
+                raise SQLExecError(f"ambiguous column name: {e[2]}")
+            return
+        for x in (e[1:] if (e and isinstance(e[0], str)) else e):
+            if isinstance(x, (tuple, list)):
+                self.check_names(x, rel, extra)
+
     # ------------------------------------------------------------ relations
     def run(self, q, env):
         if q[0] == "with":
@@ -732,6 +753,10 @@ class Interp:
         _, terms, src, where, group, order, limit = q
         rel = self.source(src, env) if src is not None else Rel([], [[]])
         rows = rel.rows
+        self.check_names([e for e, _ in terms if e != "*"], rel)
+        self.check_names(where, rel)
+        self.check_names(group, rel)
+        self.check_names([e for e, _ in (order or [])], rel, extra=[a for _, a in terms if a])
         if where is not None:
             kept = []
             for r in rows:
@@ -939,6 +964,7 @@ class Interp:
             l, r = self.source(src[2], env), self.source(src[3], env)
             jt = src[1].replace("OUTER", "").strip()
             rel = Rel(l.cols + r.cols, None, l.quals + r.quals)
+            self.check_names(src[4], rel)
             rows = []
             rmatched = set()
             for lr in l.rows:
